@@ -216,7 +216,7 @@ fn and_count(rng: &mut ChaCha8Rng, tier: Tier, k: usize) -> usize {
     // a fixed share of runs sits on both sides of the 1000-gate batch boundary
     let big: &[usize] = match tier {
         Tier::Quick => &[999, 1000, 1001, 2001],
-        Tier::Thorough => &[999, 1000, 1001, 1002, 2000, 2001, 3001, 9001],
+        Tier::Thorough => &[999, 1000, 1001, 1002, 2000, 2001, 3001, 9001, 27900],
     };
     let every = match tier {
         Tier::Quick => 10,
@@ -248,7 +248,7 @@ fn run_batch(id: &str, case: &Value, cx: &CaseCx, tier: Tier) -> CaseOut {
         let spec = if id == "C01" {
             let n = [2, 2, 2, 3, 3, 4, 5][rng.random_range(0..7)];
             let ands = and_count(&mut rng, tier, k);
-            let n = if ands > 1500 { n.min(3) } else { n };
+            let n = if ands > 20000 { 2 } else if ands > 1500 { n.min(3) } else { n };
             let others = if ands > 500 { rng.random_range(0..50) } else { rng.random_range(0..30) };
             gen_honest(&mut rng, n, ands, others, &[0, 0, 1, 2, 8])
         } else {
